@@ -115,7 +115,7 @@ func alphabet(quick bool) (ops []op) {
 	for _, m := range macs {
 		ops = append(ops, op{Kind: "disc", MAC: m})
 	}
-	ops = append(ops, op{Kind: "advance"}, op{Kind: "restart"}, op{Kind: "off"})
+	ops = append(ops, op{Kind: "advance"}, op{Kind: "restart"}, op{Kind: "off"}, op{Kind: "reset"})
 	for _, m := range macs {
 		ops = append(ops, op{Kind: "srm", MAC: m})
 	}
@@ -410,6 +410,11 @@ func (in *instance) apply(o op) (r result) {
 		}
 	case "advance":
 		vtime.AdvanceVirtual(2 * leaseDur)
+	case "reset":
+		// POST /control/dhcp/reset_leases: every lease and reservation goes.
+		if err := in.srv.ResetLeases(); err != nil {
+			r.Err = err.Error()
+		}
 	case "restart":
 		// The running server is dropped (Stop does not store anything) and a new
 		// one is created on the same directory: Create -> dbLoad.
@@ -479,6 +484,10 @@ func (m *model) update(o op, r result, now time.Time) {
 	case "srm":
 		if r.Err == "" {
 			delete(m.resv, o.MAC)
+		}
+	case "reset":
+		if r.Err == "" {
+			m.held, m.resv = map[int]heldLease{}, map[int]reservation{}
 		}
 	}
 }
@@ -1081,12 +1090,26 @@ func run(c *lib.Ctx) {
 	// quick: the small alphabet to depth 4.  thorough: the small alphabet to
 	// depth 6, then the rich one (4 clients, more hostnames and addresses) to
 	// depth 4.
-	searches := []search{{"small", false, 4}}
+	searches := []search{{"small", false, 4}, {"hostnames", false, 6}}
 	if !c.Quick() {
-		searches = []search{{"small", false, 6}, {"rich", true, 4}}
+		searches = []search{{"small", false, 6}, {"rich", true, 4}, {"hostnames", false, 7}}
 	}
 	for _, s := range searches {
 		ops := alphabet(!s.rich)
+		if s.tag == "hostnames" {
+			// Two clients that ask for one and the same hostname, the clock and a
+			// restart: deeper than the full alphabet can go.
+			ops = nil
+			for m := 1; m <= 2; m++ {
+				ops = append(ops, op{Kind: "disc", MAC: m})
+			}
+			ops = append(ops, op{Kind: "advance"}, op{Kind: "restart"})
+			for m := 1; m <= 2; m++ {
+				for _, ip := range pool[:2] {
+					ops = append(ops, op{Kind: "req-sel", MAC: m, IP: ip.String(), Host: "h1"})
+				}
+			}
+		}
 		c.Note(s.tag+"_alphabet", fmt.Sprintf("%d operations, depth bound %d; subnet %s gateway %s pool %s-%s (3 addresses) lease 1h", len(ops), s.depth, subnet, gateway, poolStart, poolEnd))
 		x := &explorer{tag: s.tag, c: c, ops: ops, exec: e.exec, maxDepth: s.depth}
 		if !x.run() {
